@@ -106,6 +106,21 @@ CHECKS["C08"] = dict(
          "nor equality for all field values.",
     ref="DESIGN.md section 3 C08")
 
+CHECKS["C07"] = dict(
+    technique="agreement of sibling writer/reader implementations: the ast of each serialiser and parser is evaluated by the checker's own interpreter over enumerated boundary-class domains (no aiortc code is imported or run)",
+    text="Decides writer/reader agreement per field class: header-extension one-/two-byte form and per-extension value widths; generic NACK as a set of 16-bit "
+         "sequence numbers incl. wrap; the 24-bit signed cumulative loss at its boundaries; REMB mantissa/exponent (never rounds up, relative error < 2^-17); "
+         "RR/SR/SDES/BYE/PSFB compound packets for counts 0..3 and all length residues; RtpPacket CSRC/marker/padding classes and wrap_rtx/unwrap_rtx; every "
+         "RTCP payload a multiple of 4. It decides agreement on class representatives, not equality for every value.",
+    ref="DESIGN.md section 3 C07")
+CHECKS["C11"] = dict(
+    technique="must-event (dominance) analysis of the RTX unwrap guards and of NACK-window truncation; constant agreement between NACK window and sender history; program-order/def-use rule; serial qualifier analysis",
+    text="Decides: every path of NackGenerator.add that can add to `missing` reaches truncate(); the NACK window, the sender's history store and lookup use one "
+         "constant; a retransmission is sent only for the exact sequence number asked for; unwrap_rtx is dominated by the payload-length, apt and SSRC-mapping "
+         "checks and the media codec is used afterwards; statistics see the wire packet while NACK generation and the jitter buffer see the unwrapped one; "
+         "serial discipline in the RTP sender/receiver. It does not decide eventual recovery or byte identity of decoder input under loss schedules.",
+    ref="DESIGN.md section 3 C11")
+
 NOT_APPLICABLE = {
     "C06": "every clause quantifies over loss schedules, timers and the interleaving of several channels' fragments across heap queues; no "
            "clause has a structural necessary condition that is not merely a description of one implementation (DESIGN.md section 5). Its "
